@@ -22,6 +22,9 @@ for d in sorted(glob.glob(os.path.join(ROOT, "seeded", "*"))):
     fm = m.get("first_measurement")
     if fm is not None and not fm.get("caught"):
         res += " - first measurement (before strengthening): exit %s" % fm.get("exit")
+    sa = m.get("sweep_alone")
+    if sa is not None:
+        res += " - random sweep alone (%d definitions): %s" % (sa["random_definitions"], ("%d definitions fail, %d of them on an assertion of this property" % (sa["failing_definitions"], sa["failing_for_target_property"])) if sa["failing_definitions"] else "nothing")
     note = m.get("detection_note")
     if note:
         res += " - " + note
